@@ -50,6 +50,12 @@ static inline unsigned char kv_in_u8(void)
         unsigned char v = nondet_uchar();
         return v;
 }
+/* a byte as plain char (no conversion in the harness) */
+static inline char kv_in_char(void)
+{
+        char v = nondet_char();
+        return v;
+}
 static inline float kv_in_float(void)
 {
         union { float f; uint32_t u; } x;
@@ -99,6 +105,7 @@ static long long kv_next(void)
 static inline int kv_in_int(void){ return (int)kv_next(); }
 static inline long long kv_in_ll(void){ return kv_next(); }
 static inline unsigned char kv_in_u8(void){ return (unsigned char)kv_next(); }
+static inline char kv_in_char(void){ return (char)kv_next(); }
 static inline float kv_in_float(void){ union { float f; uint32_t u; } x; x.u = (uint32_t)kv_next(); return x.f; }
 static inline double kv_in_double(void){ union { double f; long long u; } x; x.u = kv_next(); return x.f; }
 
